@@ -90,6 +90,46 @@ partial def encTok : Tok → Sexp
   | .lit n => list [atom "lit", encName (String.ofList n)]
   | .paren inner => list (atom "paren" :: inner.map encTok)
 
+/-! the character sweep (C13): the same classes as `sweep_classes` in the harness -/
+partial def tokShape : Tok → Char × List Char
+  | .and => ('a', []) | .or => ('o', []) | .not => ('n', []) | .tt => ('t', []) | .ff => ('f', [])
+  | .lit n => ('l', n)
+  | .paren inner => ('p', inner.map fun t => (tokShape t).1)
+
+def sweepText (tmpl : Nat) (c : Char) : List Char × List Char :=
+  match tmpl with
+  | 0 => (['q', c], ['q', c])
+  | 1 => (['a', c, 'b'], ['a', c, 'b'])
+  | 2 => (['{', 'a', c, 'b', '}'], ['a', c, 'b'])
+  | 3 => ([c], [c])
+  | 4 => (['{', c, '}'], [c])
+  | _ => (['{', c, '}', '&', 'b'], [c])
+
+def sweepClass (lex : List Char → Option (List Tok)) (tmpl : Nat) (blank : Option (List (Char × List Char))) (c : Char) : String :=
+  let (text, name) := sweepText tmpl c
+  let r := (lex text).map fun ts => ts.map tokShape
+  match r with
+  | none => "E"
+  | some ts =>
+    if ts.head? == some ('l', name) && ts.length == (if tmpl == 5 then 3 else 1) then "I"
+    else if r == blank then "W"
+    else "O" ++ String.ofList (ts.map (·.1))
+
+partial def sweepRuns (lex : List Char → Option (List Tok)) (tmpl lo hi stride : Nat) : String :=
+  let blank := (lex (sweepText tmpl ' ').1).map fun ts => ts.map tokShape
+  let rec go (cp : Nat) (cur : Option (String × Nat)) (acc : List String) : List String :=
+    if cp ≥ hi then
+      (match cur with | some (k, n) => (s!"{k}*{n}") :: acc | none => acc)
+    else if (0xD800 ≤ cp && cp ≤ 0xDFFF) || cp > 0x10FFFF then go (cp + stride) cur acc
+    else
+      let k := sweepClass lex tmpl blank (Char.ofNat cp)
+      match cur with
+      | some (k', n) => if k' == k then go (cp + stride) (some (k', n + 1)) acc
+                        else go (cp + stride) (some (k, 1)) ((s!"{k'}*{n}") :: acc)
+      | none => go (cp + stride) (some (k, 1)) acc
+  let runs := (go lo none []).reverse
+  if runs.isEmpty then "none" else ",".intercalate runs
+
 def csvErrName : CsvErr → String
   | .duplicateVariableName => "DuplicateVariableName" | .unexpectedEof => "UnexpectedEof"
   | .recordDifferentSize => "RecordDifferentSizeThanHeader" | .nonBooleanCell => "NonBooleanCellValue"
@@ -357,6 +397,11 @@ def handle (prop op : String) (args : List Sexp) (impl : Sexp) : Reply :=
     -- agreement at Ok/Err granularity plus the exact token stream
     ⟨(isOkS m && m == impl) || (isErrS m && isErrS impl), m,
      (isOkS impl && impl == ref) || (isErrS impl && ref == atom "reject"), "lexer"⟩
+  | "sweep", [atom t, atom lo, atom hi, atom st] =>
+    let tm := t.toNat?.getD 0; let l := lo.toNat?.getD 0; let h := hi.toNat?.getD 0; let sd := max 1 (st.toNat?.getD 1)
+    let m := sweepRuns (fun cs => match tokenize cs with | .ok ts => some ts | .error _ => none) tm l h sd
+    let r := sweepRuns refLex tm l h sd
+    ⟨impl == atom m, atom m, impl == atom r, "every-character-read-as-the-grammar-says"⟩
   | "parse", [s] =>
     let text := decStr s
     let m := match parse text with
